@@ -104,18 +104,29 @@ func unkPush(uid string) func(erpc.UnknownPushCtx) *erpc.Status {
 // applyOp performs one operation of a plan on peer through the public API and returns the
 // names the registration returned.
 func applyOp(peer erpc.Peer, op planOp) []string {
+	// the same operation is reachable through Peer and through Peer.Router(); alternate
+	// (deterministically, so that parent and child processes agree)
+	viaRouter := (len(op.Groups)+op.Item+len(op.UID))%2 == 1
+	root := peer.Router()
 	var sub *erpc.SubRouter
 	for i, g := range op.Groups {
-		if i == 0 {
+		switch {
+		case i == 0 && viaRouter:
+			sub = root.SubRoute(g)
+		case i == 0:
 			sub = peer.SubRoute(g)
-		} else {
+		default:
 			sub = sub.SubRoute(g)
 		}
 	}
 	if op.Unk {
 		switch {
+		case sub == nil && op.NS == "call" && viaRouter:
+			root.SetUnknownCall(unkCall(op.UID))
 		case sub == nil && op.NS == "call":
 			peer.SetUnknownCall(unkCall(op.UID))
+		case sub == nil && viaRouter:
+			root.SetUnknownPush(unkPush(op.UID))
 		case sub == nil:
 			peer.SetUnknownPush(unkPush(op.UID))
 		case op.NS == "call":
@@ -126,6 +137,18 @@ func applyOp(peer erpc.Peer, op planOp) []string {
 		return nil
 	}
 	it := corpus[op.Item]
+	if sub == nil && viaRouter {
+		switch {
+		case it.NS == "call" && it.Kind == "struct":
+			return root.RouteCall(it.Obj)
+		case it.NS == "call":
+			return []string{root.RouteCallFunc(it.Obj)}
+		case it.Kind == "struct":
+			return root.RoutePush(it.Obj)
+		default:
+			return []string{root.RoutePushFunc(it.Obj)}
+		}
+	}
 	switch {
 	case sub == nil && it.NS == "call" && it.Kind == "struct":
 		return peer.RouteCall(it.Obj)
@@ -628,7 +651,18 @@ func routeBatch(cfg *RunCfg, st *Stats, w *CaseWriter, distinct DistinctSet, ind
 	ret := map[nsName]string{}      // (ns,name) -> hid, as returned by the implementation
 	lastUnk := map[string]string{} // ns -> uid set last (harness's own knowledge)
 	var entries []nsName
+	late := 0
+	if !full && len(pl.Ops) > 3 {
+		late = []int{0, 0, 1, 2, 3}[r.Intn(5)]
+	}
+	st.Count(fmt.Sprintf("late-ops:%d", late))
+	var p *Pair
 	for i, op := range pl.Ops {
+		if p == nil && i >= len(pl.Ops)-late {
+			// the remaining operations are performed on a peer that already serves a session
+			// (no request is in flight, so no lookup runs concurrently)
+			p = ServePair(srv, cli)
+		}
 		names := applyOp(srv, op)
 		per[i] = names
 		if op.Unk {
@@ -702,7 +736,9 @@ func routeBatch(cfg *RunCfg, st *Stats, w *CaseWriter, distinct DistinctSet, ind
 	}
 	qs = append(qs, query{"call", "", "empty"}, query{"push", "", "empty"}, query{"call", "/", "root"})
 
-	p := ServePair(srv, cli)
+	if p == nil {
+		p = ServePair(srv, cli)
+	}
 	if p.SrvSess == nil || p.CliSess == nil {
 		st.Fail(index, "session", "could not establish the session pair", human())
 		return 0
@@ -846,7 +882,7 @@ var conflictRe = regexp.MustCompile(`there is a handler conflict: ([^\r\n]*?)(?:
 func conflictCase(cfg *RunCfg, st *Stats, w *CaseWriter, distinct DistinctSet, index, c int) {
 	r := cfg.Rng
 	kind := "http"
-	if c%2 == 1 {
+	if (c/4)%2 == 1 {
 		kind = "rpc"
 	}
 	base, taken := genPlan(cfg, kind, false, c)
@@ -873,30 +909,40 @@ func conflictCase(cfg *RunCfg, st *Stats, w *CaseWriter, distinct DistinctSet, i
 		}
 		fallthrough
 	default:
-		// search a (group, item) whose solo names hit a taken name of its namespace
+		// search a (group, item) whose solo names hit a taken name of its namespace; for
+		// c%4 == 1 the colliding item must be a DIFFERENT controller/function than any in the plan
+		wantOther := c%4 == 1
+		inPlan := map[int][]string{}
+		var candGroups [][]string
+		for _, op := range base.Ops {
+			if op.Unk {
+				continue
+			}
+			inPlan[op.Item] = op.Groups
+			candGroups = append(candGroups, op.Groups)
+			for _, x := range []string{"aa_bb", "AaBb", "Aa", "aa", "user", "User", "X_", "ABC", "abc_xyz", "ABcXYz", "Stat", "event", "Math", "T9", "P9", "Event", "HTTPServer", "user_info", "V1"} {
+				candGroups = append(candGroups, append(append([]string{}, op.Groups...), x))
+			}
+		}
 		found := false
-		for try := 0; try < 400 && !found; try++ {
+		for try := 0; try < 3000 && !found && len(candGroups) > 0; try++ {
 			idx := r.Intn(len(corpus))
 			it := corpus[idx]
 			if selfConflicting(it) {
 				continue
 			}
-			inPlan := false
-			for _, op := range base.Ops {
-				if !op.Unk && op.Item == idx {
-					inPlan = true
-				}
+			g0, already := inPlan[idx]
+			if wantOther && already {
+				continue
 			}
 			var groups []string
-			if inPlan && r.Intn(2) == 0 {
-				// same controller again in the same group: the plainest conflict
-				for _, op := range base.Ops {
-					if !op.Unk && op.Item == idx {
-						groups = op.Groups
-					}
-				}
-			} else {
+			switch {
+			case already && r.Intn(2) == 0:
+				groups = g0 // same controller again in the same group: the plainest conflict
+			case r.Intn(4) == 0:
 				groups = genGroups(cfg)
+			default:
+				groups = candGroups[r.Intn(len(candGroups))]
 			}
 			for _, n := range soloNames(kind, groups, idx) {
 				if taken[nsName{it.NS, n}] {
@@ -905,7 +951,7 @@ func conflictCase(cfg *RunCfg, st *Stats, w *CaseWriter, distinct DistinctSet, i
 			}
 			if found {
 				pl.Ops = append(pl.Ops, planOp{NS: it.NS, Groups: groups, Item: idx})
-				if inPlan {
+				if already {
 					class = "same-item-again"
 				} else {
 					class = "different-item-same-name"
